@@ -175,6 +175,11 @@ static int tap_main(int argc, char* const* argv)
     Item privkey;
     secp256k1_keypair keypair;
     bech32_hrp = ca.m.count('p') ? ca.m['p'] : DEFAULT_ADDR_PREFIX;
+    // BIP173: 1 to 83 US-ASCII characters in the range 33..126; the encoder asserts on upper case
+    if (bech32_hrp.empty() || bech32_hrp.size() > 83) abort("invalid address prefix (must be 1 to 83 characters)");
+    for (unsigned char c : bech32_hrp) {
+        if (c < 33 || c > 126 || (c >= 'A' && c <= 'Z')) abort("invalid address prefix (lower case printable ASCII only)");
+    }
 
     bool have_txs = false;
     if (ca.m.count('x') + ca.m.count('i') == 1) abort("provide either both --txin and --tx, or neither");
